@@ -282,6 +282,50 @@ if __name__ == "__main__":
         print(r.header, check_run(r, {}, None))
 
 
+# ---------------------------------------------------------------- sessions (C14)
+def check_sessions(run, capacity):
+    """tokens of simultaneously open sessions are distinct, at most `capacity` are open, and
+    WARN_MAX_SESSIONS is only returned if every slot was occupied at some moment of the call"""
+    out = []
+    sess = []          # (slot, enter_inv, enter_ret, leave_inv or inf, leave_ret or inf)
+    fails = []
+    INF = 10 ** 18
+    by_tid = {}
+    for h in sorted(run.h, key=lambda x: (x["tid"], x["idx"])):
+        o = h["op"][0]
+        if o == "enter":
+            if h["res"].startswith("OK slot"):
+                rec = [int(h["res"].split()[2]), h["inv"], h["ret"], INF, INF]
+                sess.append(rec)
+                by_tid[h["tid"]] = rec
+            elif h["res"] == "WARN_MAX_SESSIONS":
+                fails.append((h["inv"], h["ret"]))
+            else:
+                out.append(("session", "unexpected enter result " + h["res"]))
+        elif o == "leave" and h["res"] == "OK":
+            rec = by_tid.pop(h["tid"], None)
+            if rec is not None:
+                rec[3], rec[4] = h["inv"], h["ret"]
+    # definitely open: [enter_ret, leave_inv]
+    for i, a in enumerate(sess):
+        for b in sess[i + 1:]:
+            if a[0] == b[0] and a[2] < b[3] and b[2] < a[3] and max(a[2], b[2]) < min(a[3], b[3]):
+                out.append(("session", "slot %d handed to two sessions open at the same time: %s %s" % (a[0], a, b)))
+    events = sorted({x[2] for x in sess})
+    for tpt in events:
+        n = sum(1 for x in sess if x[2] <= tpt < x[3])
+        if n > capacity:
+            out.append(("session", "%d sessions open at step %d, capacity %d" % (n, tpt, capacity)))
+    for (fi, fr) in fails:
+        for slot in range(capacity):
+            if not any(x[0] == slot and x[1] <= fr and fi <= x[4] for x in sess):
+                out.append(("session", "WARN_MAX_SESSIONS during [%d,%d] although slot %d was never occupied during the call" % (fi, fr, slot)))
+                break
+    if any(x[0] >= capacity or x[0] < 0 for x in sess):
+        out.append(("session", "token outside the table"))
+    return out
+
+
 # ---------------------------------------------------------------- reclamation order (C07)
 def epoch_order(run):
     """from the trace: an object is reclaimed only after every session that was open when it was
